@@ -28,6 +28,7 @@ import (
 
 	"github.com/ProtonMail/go-crypto/openpgp"
 	"github.com/ProtonMail/go-crypto/openpgp/armor"
+	"github.com/ProtonMail/go-crypto/openpgp/packet"
 	"github.com/ProtonMail/go-crypto/openpgp/clearsign"
 	"github.com/goreleaser/nfpm/v2"
 )
@@ -132,6 +133,48 @@ func multiPublicArmored() []byte {
 	aw, err := armor.Encode(&buf, openpgp.PublicKeyType, nil)
 	must(err)
 	must(multiKey.Serialize(aw))
+	aw.Close()
+	return buf.Bytes()
+}
+
+// a key whose id, written in hex, holds decimal digits only (about one key in two thousand): a key id is hexadecimal
+// whatever it looks like
+var (
+	decimalKey   *openpgp.Entity
+	decimalKeyID string
+)
+
+func decimalKeyArmored() []byte {
+	if decimalKey == nil {
+		cfg := &packet.Config{Algorithm: packet.PubKeyAlgoEdDSA}
+		for i := 0; i < 40000 && decimalKey == nil; i++ {
+			e, err := openpgp.NewEntity("Verif Decimal", "", "decimal@example.com", cfg)
+			must(err)
+			id := fmt.Sprintf("%016x", e.PrimaryKey.KeyId)
+			if !strings.ContainsAny(id, "abcdef") && id[0] != '0' {
+				decimalKey, decimalKeyID = e, id
+			}
+		}
+	}
+	if decimalKey == nil {
+		return nil
+	}
+	var buf bytes.Buffer
+	aw, err := armor.Encode(&buf, openpgp.PrivateKeyType, nil)
+	must(err)
+	must(decimalKey.SerializePrivate(aw, nil))
+	aw.Close()
+	return buf.Bytes()
+}
+
+func decimalPublicArmored() []byte {
+	if decimalKeyArmored() == nil {
+		return nil
+	}
+	var buf bytes.Buffer
+	aw, err := armor.Encode(&buf, openpgp.PublicKeyType, nil)
+	must(err)
+	must(decimalKey.Serialize(aw))
 	aw.Close()
 	return buf.Bytes()
 }
@@ -275,6 +318,21 @@ func sigVariants() []sigVariant {
 				}
 			}, expect: "ok", ring: func() openpgp.EntityList { multiKeyArmored(); return openpgp.EntityList{multiKey} }})
 		}
+	}
+	for _, f := range []string{"deb", "rpm"} {
+		f := f
+		if decimalKeyArmored() == nil {
+			break
+		}
+		vs = append(vs, sigVariant{name: f + "-key-id-of-decimal-digits-only", format: f, tweak: func(info *nfpm.Info, _ *cbRecord) {
+			must(os.WriteFile("decimal.asc", decimalKeyArmored(), 0o600))
+			id := decimalKeyID
+			if f == "deb" {
+				info.Deb.Signature.KeyFile, info.Deb.Signature.KeyID = "decimal.asc", &id
+			} else {
+				info.RPM.Signature.KeyFile, info.RPM.Signature.KeyID = "decimal.asc", &id
+			}
+		}, expect: "ok", ring: func() openpgp.EntityList { return openpgp.EntityList{decimalKey} }})
 	}
 	// an armored key file that does not begin with the armor line (a blank line from a CI secret, comment lines, an indented
 	// first line): OpenPGP armor readers skip what precedes the header
@@ -565,6 +623,11 @@ func gpgSetup(dir string) {
 		multi := filepath.Join(dir, "multi.pub.asc")
 		must(os.WriteFile(multi, multiPublicArmored(), 0o644))
 		exec.Command("gpg", "--batch", "--quiet", "--homedir", home, "--import", multi).Run()
+		if pub := decimalPublicArmored(); pub != nil {
+			dec := filepath.Join(dir, "decimal.pub.asc")
+			must(os.WriteFile(dec, pub, 0o644))
+			exec.Command("gpg", "--batch", "--quiet", "--homedir", home, "--import", dec).Run()
+		}
 	}
 }
 
@@ -613,6 +676,11 @@ func gpgVerify(sig, data []byte) string {
 	multi := filepath.Join(fresh, "multi.pub.asc")
 	os.WriteFile(multi, multiPublicArmored(), 0o644)
 	exec.Command("gpg", "--batch", "--quiet", "--homedir", fresh, "--import", multi).Run()
+	if pub := decimalPublicArmored(); pub != nil {
+		dec := filepath.Join(fresh, "decimal.pub.asc")
+		os.WriteFile(dec, pub, 0o644)
+		exec.Command("gpg", "--batch", "--quiet", "--homedir", fresh, "--import", dec).Run()
+	}
 	if gpgVerifyIn(fresh, sig, data) {
 		return "1"
 	}
